@@ -1,0 +1,8 @@
+//go:build verif
+
+package cluster
+
+import "github.com/emitter-io/emitter/internal/event"
+
+// VerifState exposes the replicated state of the swarm (read-only use).
+func (s *Swarm) VerifState() *event.State { return s.state }
